@@ -10,6 +10,8 @@ c_Names2 == {"ix", "iy"}
 c_Ids2 == {"a", "b"}
 c_Ids3 == {"a", "b", "c"}
 c_Vecs2 == {"v1", "v2"}
+c_ALk == {"alk"}
+c_MValsN == {"b", "g"}
 c_Acc1 == {1}
 c_Ids3g == {"a", "b", "g"}
 c_Vecs1b == {"v1", "vbad"}
